@@ -28,7 +28,10 @@ def _rotation_overlay(cid, tier):
     txt = open(src).read()
     new, n = re.subn(r"DefaultFileSize\s*=\s*10 \* 1024 \* 1024", "DefaultFileSize   = 16", txt)
     if n != 1:
-        checklib.tool_error("constant DefaultFileSize not found in engine/wal.go (rotation overlay)")
+        # the constant is spelled differently in the tree under test: the roll-over stage cannot be built; this is
+        # not a verdict about the property (the first stage still decides), the evidence says exhaustive:false
+        checklib.log("C01: constant DefaultFileSize not found in engine/wal.go - roll-over stage skipped")
+        return None
     dst = os.path.join(checklib.build_dir(cid), "rotation", "wal.go")
     os.makedirs(os.path.dirname(dst), exist_ok=True)
     with open(dst, "w") as fh:
@@ -59,7 +62,14 @@ def run(tier, replay):
             binp = checklib.go_test_build(cid, SPEC["pkg"], ov)
             reports += checklib.run_workers(cid, binp, SPEC["test"], tier, SPEC["workers"], dl, os.path.join(scratch, "a"))
         # stage 2: roll-over binary (tiny WAL file size), long overwrite histories, crash images split over the workers
-        ov2 = checklib.gen_overlay(cid, hooks, _rotation_overlay(cid, tier))
+        rot = _rotation_overlay(cid, tier)
+        if rot is None:
+            if replay:
+                checklib.tool_error("replay of a roll-over case needs the shrunk WAL file size, which cannot be built for this tree")
+            reports.append({"evaluations": 0, "exhaustive": False, "counters": {"rotation_stage_skipped": 1},
+                            "notes": ["roll-over stage skipped: DefaultFileSize constant not found in engine/wal.go"]})
+            return checklib.finish(cid, tier, SPEC["level"], SPEC["rule"], reports, t0, SPEC.get("assumptions"))
+        ov2 = checklib.gen_overlay(cid, hooks, rot)
         bin2 = checklib.go_test_build(cid, SPEC["pkg"], ov2, out=os.path.join(checklib.build_dir(cid), "t-rotation.bin"))
         env = {"VERIF_C01_MODE": "rotation"}
         if replay:
